@@ -1,5 +1,27 @@
-(* Property C13 — PSI/SI tables decoded field for field; PAT and PMT encoded exactly (theorems only; proofs in Proofs/). *)
+(* Property C13 — PSI/SI tables decoded field for field; PAT and PMT encoded exactly.
+   Statements only; proofs are in Proofs/PsiProofs.v (and Proofs/PsiParse.v).  The reference encoding is
+   Spec/PsiSpec.v: (width, value) field lists from ISO/IEC 13818-1 2.4.4 closed by the bitwise CRC-32/MPEG-2 of
+   Spec/CrcSpec.v.  parse_psi_data / write_psi_data / psi_to_data are the model of data_psi.go and data_pat.go
+   (Model/Psi.v), run against the implementation on every check; the table-id predicates, the checksum and
+   calcPATSectionLength are re-translated from the source on every run. *)
 From Coq Require Import ZArith List.
-Require Import Base.Bits Base.Iter Base.Wr Gen.Types Model.Psi.
+Require Import Base.Bits Base.Iter Base.Wr Gen.Consts Gen.Types Gen.Preds Model.Packet Model.Psi.
+Require Import Spec.CrcSpec Spec.PsiSpec Proofs.PsiProofs.
 Import ListNotations.
 Open Scope Z_scope.
+
+(* C13_write_pat: writePSIData on a unit of one PAT section -- any pointer_field 0..255, any header flags, any
+   transport_stream_id / version / current_next / section numbers, any program numbers and PIDs (fields wider
+   than their slot are truncated on both sides), 0..253 programs (the 1021-byte section limit) -- produces, byte
+   for byte, pointer_field, the filler, and the reference encoding of the section, CRC_32 included. *)
+Theorem C13_write_pat : forall p c h sh d pat, 0 <= p < 256 ->
+  PSISectionHeader_TableID h = 0 -> PSISectionHeader_SectionLength h > 0 ->
+  PSISectionSyntaxData_PAT d = Some pat -> (length (PATData_Programs pat) <= 253)%nat ->
+  write_psi_data {| PSIData_PointerField := p; PSIData_Sections := [mk_section c h sh d] |} =
+  Ok (p :: repeat 0 (Z.to_nat p) ++
+      spec_pat_section (PSISectionHeader_SectionSyntaxIndicator h) (PSISectionHeader_PrivateBit h)
+        (PSISectionSyntaxHeader_TableIDExtension sh) (PSISectionSyntaxHeader_VersionNumber sh)
+        (PSISectionSyntaxHeader_CurrentNextIndicator sh) (PSISectionSyntaxHeader_SectionNumber sh)
+        (PSISectionSyntaxHeader_LastSectionNumber sh) (pat_entries pat)).
+Proof. exact write_pat. Qed.
+Print Assumptions C13_write_pat.
